@@ -24,7 +24,7 @@ CHECKS = {
              "C02_refusals (generator option-compatibility model = documented table on all 6144 option sets, enumeration proved complete). "
              "Every (table option, 7/8 bit, batch/interactive, %array, back end) combination examined is lock-stepped against the same "
              "specification; flex's accept/refuse decision is compared with the extracted model on all 6144 option sets. "
-             "C02_equivalence_classes_respect_the_nfa / C02_equivalence_classes_preserve_the_token: the emitted yy_ec is judged against the printed NFA (bytes of one class "
+             "C02_equivalence_classes_respect_the_nfa / C02_equivalence_classes_preserve_the_token / C02_scanning_class_representatives_is_scanning_bytes: the emitted yy_ec is judged against the printed NFA (bytes of one class "
              "drive the subset construction alike), for every input (run inside C01's NFA family).",
         design="DESIGN.md section 6 C02", technique="machine-checked proof (Rocq) + exhaustive finite table + proved checker on emitted tables"),
     "C06": dict(
